@@ -536,6 +536,62 @@ def run_sort_replace_sort(chk, spec):
 RUNNERS["sort_replace_sort"] = run_sort_replace_sort
 
 
+def run_row_view_keys(chk, spec):
+	"""keys given as ROW views of another table (crit[0], crit[1], ...: vectors whose storage is made up afresh every time it is asked for): each is a key of its own, in the order given"""
+	import random, warnings
+	rng = random.Random(spec["seed"])
+	n = spec["n"]
+	first = [rng.choice([1, 2]) for _ in range(n)]
+	second = [rng.randrange(50) for _ in range(n)]
+	third = [rng.randrange(3) for _ in range(n)]
+	with warnings.catch_warnings():
+		warnings.simplefilter("ignore")
+		crit = Table({f"c{j}": [first[j], second[j], third[j]] for j in range(n)})
+		t = Table({"pay": [f"p{i}" for i in range(n)], "__id": list(range(100, 100 + n))})
+		keys = {"two-rows": lambda: [crit[0], crit[1]], "three-rows": lambda: [crit[0], crit[2], crit[1]], "row-and-name": lambda: [crit[0], "pay"], "same-row-twice": lambda: [crit[0], crit[0], crit[1]]}[spec["keys"]]()
+		keycols = {"two-rows": [first, second], "three-rows": [first, third, second], "row-and-name": [first, [f"p{i}" for i in range(n)]], "same-row-twice": [first, first, second]}[spec["keys"]]
+		revs = [spec["reverse"]] * len(keycols)
+		o = call(lambda: t.sort_by(keys, reverse=spec["reverse"]))
+	chk.judged("table-sort", ("row-view-keys", spec["keys"], min(n, 30), spec["reverse"]))
+	if not o.ok:
+		chk.skip("row-view-keys-refused")
+		return
+	names_out, cols_out = J.cells(o.value)
+	in_rows = J.rows_from([list(c._underlying) for c in t.cols()], n)
+	out_rows = J.rows_from(cols_out, len(cols_out[0]) if cols_out else 0)
+	idpos = names_out.index("__id")
+	check_sorted(chk, "table-sort/row-view-keys", spec, in_rows, keycols, [r[idpos] for r in in_rows], out_rows, idpos, revs, True)
+
+
+RUNNERS["row_view_keys"] = run_row_view_keys
+
+
+def run_empty_table_sort(chk, spec):
+	"""a table that a filter reduced to zero rows - with repeated labels, unnamed columns, labels that sanitise alike - sorted by any key: every column is still there, under its label"""
+	import warnings
+	with warnings.catch_warnings():
+		warnings.simplefilter("ignore")
+		names = {"repeated": ["a", "b", "a"], "unnamed": [None, None, "k"], "lookalike": ["x y", "x_y", "k"], "plain": ["a", "b", "k"], "all-unnamed": [None, None, None]}[spec["names"]]
+		t = Table([Vector([3, 1, 2], name=names[0]), Vector(["p", "q", "r"], name=names[1]), Vector([1.5, 2.5, 0.5], name=names[2])])
+		e = {"slice": lambda: t[0:0], "mask": lambda: t[[False, False, False]], "slice-end": lambda: t[3:]}[spec["how"]]()
+		key = e.cols()[0] if spec["key"] == "vector" else (names[2] if names[2] is not None else e.cols()[2])
+		o = call(lambda: e.sort_by(key, reverse=spec["reverse"]))
+	chk.judged("table-sort", ("empty-table-sort", spec["names"], spec["how"], spec["key"]))
+	if not o.ok:
+		chk.skip("empty-sort-refused")
+		return
+	r = o.value
+	if not isinstance(r, Table) or len(r.cols()) != 3 or [c._name for c in r.cols()] != names or len(r) != 0:
+		chk.fail("sort_by returns a permutation of the input rows - cells kept together, every column", f"table-sort/empty-table/columns-lost-or-renamed/{spec['names']}", f"{spec!r}: sorting a 0x3 table with labels {names!r} gave columns {[c._name for c in r.cols()] if isinstance(r, Table) else r!r}")
+		return
+	o2 = call(lambda: r.sort_by(r.cols()[0]))
+	if o2.ok and isinstance(o2.value, Table) and len(o2.value.cols()) != 3:
+		chk.fail("sorting a sorted table changes nothing", f"table-sort/empty-table/not-idempotent/{spec['names']}", f"{spec!r}: sorted again: {len(o2.value.cols())} columns")
+
+
+RUNNERS["empty_table_sort"] = run_empty_table_sort
+
+
 def run(chk):
 	recompute.add_cases(chk, "C14")
 	rng = chk.rng
@@ -546,6 +602,15 @@ def run(chk):
 			for reverse in (False, True):
 				for na_last in (True, False):
 					chk.case("row_sort", {"rows": rows, "how": how, "reverse": reverse, "na_last": na_last}, "row-sort")
+	for keys in ("two-rows", "three-rows", "row-and-name", "same-row-twice"):
+		for n in (3, 8, 19, 25, 40, 64) if chk.quick() else (3, 8, 19, 25, 40, 64, 200, 1000):
+			for reverse in (False, True):
+				chk.case("row_view_keys", {"keys": keys, "n": n, "reverse": reverse, "seed": rng.randrange(10**9)}, "row-view-keys")
+	for names in ("repeated", "unnamed", "lookalike", "plain", "all-unnamed"):
+		for how in ("slice", "mask", "slice-end"):
+			for key in ("vector", "name"):
+				for reverse in (False, True):
+					chk.case("empty_table_sort", {"names": names, "how": how, "key": key, "reverse": reverse}, "empty-table-sort")
 	for first in ("sort_by", "sort_by-list", "aggregate", "window"):
 		for replace in ("attr-list", "attr-vector", "attr-vector-other-name", "column-item"):
 			for layout in ("plain", "repeated-label"):
